@@ -546,6 +546,20 @@ def check_C06(res, ctx):
         ops += ["merge", "close", engine.open_line("d", cfg), "files d-merge", "dump", "keys", "close", engine.open_line("d", cfg), "dump", "close"]
         engine_history_check(res, ctx, "second merge over an unfinished leftover %d" % i, ops)
         res.count("unfinished_leftover_runs")
+    # the SAME key at the SAME (block, offset) of several files: fixed-size records whose period is the per-file record count.  A
+    # liveness test in Merge that compares positions without the file id rewrites the stale copies too (seeded C02-r7out3, C01-r8out1)
+    for i in range(3 if ctx.quick else 30):
+        rng = rng_for(ctx.seed, "C06s", i)
+        cfg = engine.rand_cfg(rng, io=(1 if i % 3 == 2 else 0), fs=4096)
+        size = rng.choice([900, 1200])
+        per = 4096 // (size + 40)
+        ops = [engine.open_line("d", cfg)]
+        for r in range(rng.choice([3, 5])):
+            ops += ["put 73%02x p%d:%d" % (j, 10 * r + j, size) for j in range(per)]
+        ops += ["scanstat", "merge", "dump", "close", engine.open_line("d", cfg), "files d-merge", "dump", "stat", "scanstat", "close",
+                engine.open_line("d", cfg), "dump", "close"]
+        engine_history_check(res, ctx, "same slot in every file %d" % i, ops)
+        res.count("same_slot_runs")
     # direct checks on adoption: merge dir gone, no tombstones / sealing records in adopted files
     for i in range(8 if ctx.quick else 100):
         rng = rng_for(ctx.seed, "C06a", i)
